@@ -510,9 +510,8 @@ func classOf(b *qb, hdr string) string {
 		if fastEligible(text) && (nbase > 1 || len(b.refs) > nbase || nfrom > 1) {
 			return "fastpath-partial"
 		}
-		if b.feats["cte"] && !strings.Contains(stripped, "with ") {
-			return "with-newline"
-		}
+		// (no structural with-newline class any more: since /repo 04fa395 the header path always extracts the CTE
+		// names; the generated `with-newline` statements stay in the stream as a regression monitor)
 	}
 	if b.hazard != "" {
 		return b.hazard
